@@ -60,7 +60,8 @@ Proof.
     destruct v as [|b|z|dm de|s|l|members]; try (eapply R; [reflexivity|exact H]).
     + destruct strict; [eapply R; [reflexivity|exact H]|]. eapply F. exact H.
     + eapply F. exact H.
-    + destruct strict; [eapply R; [reflexivity|exact H]|]. eapply F. exact H.
+    + destruct strict; [eapply R; [reflexivity|exact H]|].
+      destruct (dec_integral dm de); [eapply F; exact H|eapply R; [reflexivity|exact H]].
     + destruct strict; [eapply R; [reflexivity|exact H]|].
       destruct (parse_int s); [eapply F; exact H|eapply R; [reflexivity|exact H]].
   - assert (F : forall m x, match gt with
